@@ -1,6 +1,6 @@
 # -*- coding: utf-8 -*-
 """C09 - overlap_add.list and the stft wrapper against Model/Spec of coq/theories/C09."""
-import itertools, math
+import itertools, math, json
 from fractions import Fraction
 from vlib.framework import Family
 from vlib import coqlit as L
@@ -98,6 +98,8 @@ def wdesc_lit(w):
     return "(DIter %s)" % qlist(w[2])
   if w[0] == "call":
     return "(DCall %s %s)" % (L.lst(["(%s, %s)" % (L.nat(n), wres_lit(r)) for n, r in w[1]]), wres_lit(w[2]))
+  if w[0] == "memo":                       # memoised callable: the same list object whatever the size
+    return "(DCall [] (RList %s))" % qlist(w[1])
   return "DBad"
 
 
@@ -326,6 +328,7 @@ class StftRun(object):
     self.keep = []
     self.user_log = []
     self.list_called = False
+    self.memo = {}
 
   def obj(self, key, v, salt):
     import audiolazy
@@ -333,7 +336,13 @@ class StftRun(object):
     if t == "none": return None
     if t == "nat": return int(v[1])
     if t == "bool": return bool(v[1])
-    if t == "wnd": o = wnd_py(v[1], salt)
+    if t == "wnd" and v[1][0] == "memo":
+      key = json.dumps(v[1])
+      if key not in self.memo:
+        store = [ExactQ(unfr(p)) for p in v[1][1]]
+        self.memo[key] = (lambda size, store=store: store)
+      o = self.memo[key]                   # one callable (and one list) shared by every keyword using it
+    elif t == "wnd": o = wnd_py(v[1], salt)
     elif t == "fun": o = f2_py(v[1]) if key in ("transform", "inverse_transform") else f1_py(v[1])
     elif t == "ola": o = self.list_proxy() if v[1] == "list" else self.recorder(v[1][1])
     elif t == "opaque": o = Opaque(v[1])
@@ -567,7 +576,7 @@ def gen_stft(tier, rng):
     for size in range(1, 6):
       for hop in range(1, size + 1):
         for Ln in (0, 1, size, 2 * size + 1, 11):
-          for mode in ("cola-ola", "cola-analysis", "plain", "normalized", "both"):
+          for mode in ("cola-ola", "cola-analysis", "plain", "normalized", "both", "shared"):
             n += 1
             if tier == "quick" and (n % 2):
               continue
@@ -584,6 +593,11 @@ def gen_stft(tier, rng):
             elif mode == "normalized":
               if n % 2: items += [["ola_normalize", ["bool", True]]]
               func = rng.choice(["id", ["scale", [1, 3]]])
+            elif mode == "shared":       # one memoised callable as analysis and synthesis window
+              mw = ["wnd", ["memo", wvals(size, n, hop) if n % 4 else cola_window(size, hop)]]
+              items += [["wnd", mw], ["ola_wnd", mw]]
+              if n % 3 == 0: items += [["ola_normalize", ["bool", True]]]
+              func = rng.choice(["id", "rev"])
             else:
               items += [["wnd", ["wnd", mk_window("list", size, n, 1)]], ["ola_wnd", ["wnd", mk_window("call", size, n, 2)]]]
               items = [it for it in items if it[0] != "before"] + [["before", ["fun", rng.choice(["rev", "droplast", "ramp"])]]]
@@ -596,8 +610,71 @@ def nontrivial_stft(c, o):
   return nb >= 2 and o.get("exn") is None and any(k.startswith("ola_") or k in ("wnd", "transform", "before", "after", "inverse_transform") for k in keys)
 
 
+# ---------------------------------------------------------------------------- histories sharing one window object
+class SubList(list):
+  pass
+
+
+def gen_hist(tier, rng):
+  """Sequences of overlap_add.list calls made with the same caller-side window object."""
+  seqs = [[True, False], [False, True], [True, True, False], [False, True, False], [True]]
+  smax = 5 if tier == "quick" else 8
+  n = 0
+  for size in range(1, smax + 1):
+    for hop in range(1, size + 1):
+      for kind in ("memo", "list", "sublist"):
+        for norms in seqs:
+          n += 1
+          if tier == "quick" and kind != "memo" and n % 2:
+            continue
+          wv = cola_window(size, hop) if n % 3 == 0 else wvals(size, n, hop)
+          calls = []
+          for i, nm in enumerate(norms):
+            h = hop if i % 2 == 0 else max(1, (hop * 2) % (size + 1))   # a different hop changes the gain
+            calls.append({"size": size, "hop": h, "norm": nm, "gc": gconst(size, h),
+                          "blks": mk_blocks(rng.randrange(1, 4), size, rng)})
+          yield {"wnd": wv, "kind": kind, "calls": calls, "tags": ["hist", "kind=" + kind, "n=%d" % len(norms)]}
+
+
+def run_hist(c):
+  import audiolazy
+  vals = [ExactQ(unfr(p)) for p in c["wnd"]]
+  if c["kind"] == "memo":
+    store = list(vals)
+    arg = lambda size: store               # memoised: the same list object at every call
+  elif c["kind"] == "sublist":
+    store = SubList(vals); arg = store
+  else:
+    store = list(vals); arg = store
+  res = []
+  for k in c["calls"]:
+    try:
+      g = audiolazy.overlap_add.list(blocks_py(k["blks"], "list"), size=k["size"], hop=k["hop"], wnd=arg,
+                                     normalize=k["norm"])
+      out, exn = drain(g)
+    except Exception as e:
+      out, exn = [], type(e).__name__
+    res.append({"out": out, "exn": exn, "wafter": [fr(to_frac(x)) for x in store]})
+  return {"calls": res}
+
+
+def lit_hist(c, o):
+  obs = o.get("calls") or [{"out": [], "exn": "harness-" + str(o.get("raise", "?")), "wafter": []}] * len(c["calls"])
+  calls = []
+  for k, r in zip(c["calls"], obs):
+    calls.append("(HC %s %s %s %s %s %s %s %s)" % (L.nat(k["size"]), L.nat(k["hop"]), L.boolean(k["norm"]), q(k["gc"]),
+                 L.lst([qlist(b) for b in k["blks"]]), qlist(r["out"]), ostr(r["exn"]), qlist(r["wafter"])))
+  return "(HS %s %s %s)" % (qlist(c["wnd"]), L.boolean(c["kind"] == "memo"), L.lst(calls))
+
+
+def nontrivial_hist(c, o):
+  norms = [k["norm"] for k in c["calls"]]
+  return True in norms and False in norms[norms.index(True):]
+
+
 IMPORTS = "From AL Require Import C09.Model C09.Spec C09.Check."
 FAMILIES = {
   "ola": Family("ola", IMPORTS, "ocase", "corr_ola", "holds_ola", gen_ola, run_ola, lit_ola, nontrivial_ola),
+  "hist": Family("hist", IMPORTS, "hcase", "corr_hist", "holds_hist", gen_hist, run_hist, lit_hist, nontrivial_hist),
   "stft": Family("stft", IMPORTS, "scase", "corr_stft", "holds_stft", gen_stft, run_stft, lit_stft, nontrivial_stft),
 }
